@@ -163,6 +163,62 @@ def removal(F, R):
     if not rem:
         rem = [s for s in cpr.sites if s.i != 'T' and s.node[0] == 'a' and s.node[2][0] == 'use' and s.node[2][1][0] == 'k' and 'RemovePort' in str(s.node[2][1])]
     dom(R, cpr, rpt, rem, 'remove_port_tag<RemovePort', 'a port leaves the registry only after its tag is gone')
+    return cpr
+
+
+def kinds_removed(F, root, depth=6):
+    """config_scheme kinds whose concept is removed (NamedConceptMgmt::remove_cfg / ZeroCopyPortRemover::remove_sender|receiver in the same body) in `root` or any function reached from it
+    through direct calls and closures (bounded depth)."""
+    seen, out, todo = set(), {}, [(root, 0)]
+    while todo:
+        f, d = todo.pop()
+        if f.id in seen:
+            continue
+        seen.add(f.id)
+        rm = f.calls(r'NamedConceptMgmt::remove_cfg$|zero_copy_connection::ZeroCopy(PortRemover|Connection)::remove_(sender|receiver)$')
+        if rm:
+            for c in f.calls(r'^iceoryx2::service::config_scheme::\w+_config$'):
+                out.setdefault(c.callee.split('::')[-1], c)
+        if d >= depth:
+            continue
+        for c in F.closures_of(f, recursive=False):
+            todo.append((c, d + 1))
+        for s in f.sites:
+            if s.is_call and s.callee and s.callee.startswith('iceoryx2::'):
+                g = F.fn_opt(s.callee)
+                if g is not None:
+                    todo.append((g, d + 1))
+    return out, seen
+
+
+def resource_kinds(F, R, cpr=None):
+    """Agreement between the creating and the removing side: every kind of named concept (config_scheme::<kind>_config) that a port
+    creates must be removed by both dead-port cleanup routes (registered ports: cleanup_port_resources closure; unregistered ports
+    found through their tag: remove_stale_port_resources)."""
+    created = {}
+    for s in F.callers_of(r'^iceoryx2::service::config_scheme::\w+_config$'):
+        f = s.fn
+        if not f.id.startswith('iceoryx2::port::'):
+            continue
+        cr = [c for c in f.calls(r'^iceoryx2_cal::.*Builder::create(_\w+)?$') if not c.macro]
+        if cr:
+            created.setdefault(s.callee.split('::')[-1], (f, cr[0]))
+    R.floor('named-concept kinds created by ports', len(created), 4)
+    routes = []
+    rs = F.fn_opt('iceoryx2::service::stale_resource_cleanup::remove_stale_port_resources')
+    if rs is None:
+        R.missing('remove_stale_port_resources')
+    else:
+        routes.append(('tag-walk', rs))
+    if cpr is not None:
+        routes.append(('registry-walk', cpr))
+    for name, root in routes:
+        got, seen = kinds_removed(F, root)
+        for k, (f, c) in sorted(created.items()):
+            R.ob('COVERAGE', 'COVERAGE::%s::%s-removes-%s' % (fnkey(root), name, k), k in got,
+                 'ports create a `%s` concept (%s); the %s cleanup of a dead port %s (kinds removed: %s; %d functions followed)' % (
+                     k, core.short(f.id), name, 'removes it' if k in got else 'never removes it: the resource outlives the dead node', sorted(got), len(seen)),
+                 c.where, root)
 
 
 def dyncfg(F, R):
@@ -267,7 +323,8 @@ def node_cleanup(F, R):
 def check(F, R, tier):
     ports(F, R)
     builder(F, R)
-    removal(F, R)
+    cpr = removal(F, R)
+    resource_kinds(F, R, cpr)
     dyncfg(F, R)
     storages(F, R)
     node_cleanup(F, R)
